@@ -38,7 +38,8 @@ RULE = ("case = random connected monoidal diagram (2-8 boxes, width <= 5, each "
         "or a spiral/comb worst case or a disconnected control; its class is "
         "enumerated by BFS (cap 300 quick / 4000 thorough members) and EVERY "
         "member is normalised (both orientations).  Non-trivial = connected "
-        "with a class of >= 4 members; distinct by the class's sorted keys.")
+        "with a class of >= 4 members; distinct by the class's sorted keys."
+        "  Also: one case in ten takes a circuit or rigid diagram; yielded steps re-checked after the trace; default-normalizer path; returned normal forms fed back in with both orientations.")
 SIZES = {"quick": (16, 100), "thorough": (16, 1200)}
 TIMEOUT = {"quick": 900, "thorough": 7200}
 CLASS_CAP = {"quick": 300, "thorough": 4000}
